@@ -339,6 +339,14 @@ def _module_tables(mod):
     return out
 
 
+def raw_fns_all(mod):
+    """function definitions of the module as written (the front end may have inlined a helper into its callers)"""
+    try:
+        return [x for x in ast.walk(ast.parse(mod.text)) if isinstance(x, ast.FunctionDef)]
+    except SyntaxError:
+        return list(mod.functions.values())
+
+
 def global_table_caches(ctx, modname):
     """-> (number of functions that use a module-level table as a cache, [(module, function, table, missing params, node)])"""
     mod = ctx.repo.module(modname)
@@ -388,6 +396,56 @@ def global_table_caches(ctx, modname):
                 for x in ast.walk(fn):
                     if isinstance(x, ast.Name) and isinstance(x.ctx, ast.Load) and x.id in ps and id(x) not in key_nodes:
                         used.add(x.id)
+            # (a) a validated entry: `entry = TABLE.get(k)` ... `entry[0] == p` -- the entry is reused only when the remembered copy of p equals
+            #     the current one, so p is part of the key in effect
+            entry_vars = set()
+            for n in cfg.nodes:
+                a_ = n.ast
+                if isinstance(a_, ast.Assign) and len(a_.targets) == 1 and isinstance(a_.targets[0], ast.Name):
+                    v_ = a_.value
+                    if (isinstance(v_, ast.Call) and isinstance(v_.func, ast.Attribute) and dotted(v_.func.value) == tname and v_.func.attr == "get") or \
+                            (isinstance(v_, ast.Subscript) and dotted(v_.value) == tname):
+                        entry_vars.add(a_.targets[0].id)
+            if entry_vars:
+                for x in ast.walk(fn):
+                    if isinstance(x, ast.Compare) and len(x.ops) == 1 and isinstance(x.ops[0], (ast.Eq, ast.NotEq)):
+                        for a_, b_ in ((x.left, x.comparators[0]), (x.comparators[0], x.left)):
+                            root = a_
+                            while isinstance(root, (ast.Subscript, ast.Attribute)):
+                                root = root.value
+                            if isinstance(root, ast.Name) and root.id in entry_vars and isinstance(b_, ast.Name) and b_.id in ps:
+                                covered.add(b_.id)
+            # (b) a parameter that is a function of the key at every call site: all callers in the module pass constants for the key parameters,
+            #     and one and the same module-level name for this parameter whenever the key constants are the same
+            for p_ in sorted(used - covered):
+                all_ps_ = param_names(fn)
+                off = 1 if all_ps_ and all_ps_[0] in ("self", "cls") else 0
+                keyps = [q for q in ps if q in covered]
+                calls_ = []
+                for fn2 in raw_fns_all(mod):
+                    locals2 = set(param_names(fn2)) | {t.id for t in ast.walk(fn2) if isinstance(t, ast.Name) and isinstance(t.ctx, ast.Store)}
+                    for c in ast.walk(fn2):
+                        if not (isinstance(c, ast.Call) and ((isinstance(c.func, ast.Attribute) and c.func.attr == fn.name) or (isinstance(c.func, ast.Name) and c.func.id == fn.name))):
+                            continue
+                        argmap = {}
+                        for i_, a_ in enumerate(c.args):
+                            if i_ + off < len(all_ps_):
+                                argmap[all_ps_[i_ + off]] = a_
+                        for k_ in c.keywords:
+                            if k_.arg:
+                                argmap[k_.arg] = k_.value
+                        calls_.append((argmap, locals2))
+                constkeys = [q for q in keyps if calls_ and all(q in am and isinstance(am[q], ast.Constant) for am, _ in calls_)]
+                seen_calls, okb = {}, bool(constkeys) and bool(calls_)
+                for argmap, locals2 in calls_:
+                    if p_ not in argmap or not (isinstance(argmap[p_], ast.Name) and argmap[p_].id not in locals2):
+                        okb = False
+                        continue
+                    kc = tuple(repr(argmap[q].value) for q in constkeys)
+                    if seen_calls.setdefault(kc, argmap[p_].id) != argmap[p_].id:
+                        okb = False
+                if okb and seen_calls:
+                    covered.add(p_)
             missing = sorted(used - covered)
             # fields of a record: a value computed from record["a"] under a key built from record["b"] is not determined by its key
             if dict_stores:
